@@ -261,7 +261,11 @@ PROPS = {
                                        n=(250, 2500), seed_off=31, extra=["-tags"]),
                     # optional members with several sources; a !wait-optional and a !soft-optional member on ONE source
                     S_engine(M.both(M.mon_c15_engine, M.no_eval_failure("C15", "a tagged member was evaluated although its source was not produced")),
-                             extra=["-tags", "-multiref"], name="engine-multiref", n=(200, 2000), seed_off=47)],
+                             extra=["-tags", "-multiref"], name="engine-multiref", n=(200, 2000), seed_off=47),
+                    # the sources' outputs are logged through a slow sink while other steps report: tagged members are evaluated
+                    # over the data model, which must already hold what the DAG says is resolved
+                    S_engine(M.both(M.mon_c15_engine, M.no_eval_failure("C15", "a tagged member was evaluated although its source was not produced")),
+                             extra=["-tags", "-slowlog", "40"], name="engine-slowlog", n=(40, 300), seed_off=59)],
         "rule": LOOP_RULE + " over workflows whose inputs and outputs use !wait-optional / !soft-optional / !oneof / !ordisabled; "
                 + ENGINE_RULE + " - every plugin input and the returned output are recomputed with the declarative meaning of the tags",
     },
